@@ -2,6 +2,7 @@ package gen
 
 import (
 	"fmt"
+	"math"
 	"reflect"
 	"strings"
 	"time"
@@ -134,8 +135,31 @@ func otherValue(r *rng.Rand, n *spec.Node) any {
 	case spec.Bool:
 		return r.Bool()
 	case spec.Time:
+		switch r.Intn(40) {
+		case 0:
+			return time.Time{}.In(time.FixedZone("plus1", 3600)) // the zero instant, but not the zero value of the type
+		case 1:
+			return time.Date(1600, 1, 1, 0, 0, 0, 0, time.UTC) // outside the int64-nanosecond range
+		case 2:
+			return time.Date(2300, 1, 1, 0, 0, 0, 0, time.UTC)
+		}
 		return BaseTime.Add(time.Duration(r.Range(-3000, 3000)) * time.Hour)
 	default:
+		if r.Intn(30) == 0 {
+			// extremes of the type
+			switch n.Kind {
+			case spec.Float32:
+				return []any{float32(math.MaxFloat32), float32(-math.MaxFloat32), float32(math.SmallestNonzeroFloat32)}[r.Intn(3)]
+			case spec.Float64:
+				return []any{math.MaxFloat64, -math.MaxFloat64, 1e-300}[r.Intn(3)]
+			case spec.Int32:
+				return []any{int32(math.MaxInt32), int32(math.MinInt32)}[r.Intn(2)]
+			case spec.Int64:
+				return []any{int64(math.MaxInt64), int64(math.MinInt64)}[r.Intn(2)]
+			case spec.Int:
+				return []any{math.MaxInt, math.MinInt}[r.Intn(2)]
+			}
+		}
 		return numOf(n.Kind, int64(r.Range(-80, 260)))
 	}
 }
